@@ -73,3 +73,9 @@ open CalmVerif.Props.C07
 #check @aligned_of_walk_facts
 #print axioms catch_program_facts
 #check @catch_program_facts
+#print axioms self_program_facts
+#check @self_program_facts
+#print axioms label_program_facts
+#check @label_program_facts
+#print axioms binding_preserved_of_walk_facts_partial
+#check @binding_preserved_of_walk_facts_partial
